@@ -83,6 +83,46 @@ def panic_message(site):
     return " ".join(msgs) if msgs else None
 
 
+CLOSURE_ITEM_KEY = {}     # closure fn id -> key of its item parameter when it is handed to an adapter over a Range
+_CLOSURE_ITEMS_DONE = [False]
+
+
+def register_closure_items(F):
+    """`(lo..hi).map(|i| ..)` / `.for_each(|i| ..)`: the closure's item parameter is the loop variable of that range; it
+    gets the key the `for i in lo..hi` spelling has, so audited shapes survive the loop <-> adapter edit"""
+    if _CLOSURE_ITEMS_DONE[0]:
+        return
+    _CLOSURE_ITEMS_DONE[0] = True
+    from . import ordering as od
+    for f in F.fns.values():
+        if not f.body:
+            continue
+        try:
+            cls = od.closure_loops(F, f)
+        except Exception:
+            continue
+        if not cls:
+            continue
+        b = Body(f)
+        for cf, abb, an in cls:
+            if not re.search(r"Iterator>?::(map|for_each|try_for_each|flat_map|filter_map|all|any|inspect)$", an):
+                continue
+            o = b.term(abb)["args"][0]
+            ok = False
+            for _ in range(6):
+                src = b.def_call(o)
+                if src is None:
+                    rv = b.def_rvalue(o)
+                    if rv is not None and rv["k"] == "agg" and rv.get("variant") in ("Range", "RangeInclusive"):
+                        ok = True
+                    break
+                if not re.search(r"::into_iter$|Iterator>?::by_ref$", callee_name(src) or "") or not src["args"]:
+                    break
+                o = src["args"][0]
+            if ok:
+                CLOSURE_ITEM_KEY[cf.id] = "call:range::next.0"
+
+
 def operand_key(b, o, depth=0):
     """stable description of an operand for keys.  Names chosen by the programmer for locals and parameters are NOT used
     (a rename must not change a key): a local is described by what defines it — a call, a field chain of a parameter,
@@ -100,6 +140,8 @@ def operand_key(b, o, depth=0):
 
     def pname(i):
         return "self" if (b.local_name(i) == "self") else "arg%d" % i
+    if l == 2 and not fields and getattr(b.fn, "kind", "") == "Closure" and b.fn.id in CLOSURE_ITEM_KEY:
+        return CLOSURE_ITEM_KEY[b.fn.id]
     if 1 <= l <= b.argc:
         return "%s%s" % (pname(l), ("." + fields) if fields else "")
     rv = b.def_rvalue(o2)
